@@ -4,10 +4,8 @@ package sim
 
 import (
 	"os"
-	"strconv"
 	"runtime"
 	"runtime/debug"
-	_ "unsafe" // go:linkname
 )
 
 // RaceBuild reports whether the worker was built with the race detector.
@@ -18,19 +16,6 @@ const RaceBuild = true
 // simulated threads (DESIGN 3.5).
 func raceDisable() { runtime.RaceDisable() }
 func raceEnable()  { runtime.RaceEnable() }
-
-// poolCleanup is the function the garbage collector calls (with the world
-// stopped) to age every sync.Pool by one generation. The simulator calls it
-// twice at each context switch, which empties all pools: pools are an
-// incidental synchroniser that would otherwise transfer vector clocks between
-// simulated threads and hide races (DESIGN 3.5). The conditions it relies on
-// hold at that moment: every other goroutine of the process is parked on a
-// channel outside pool code, and the collector is switched off for the
-// duration of an episode (raceWorkerInit / betweenEpisodes), so it cannot run
-// its own clean-up concurrently.
-//
-//go:linkname poolCleanup sync.poolCleanup
-func poolCleanup()
 
 func drainPools() {
 	poolCleanup()
@@ -46,20 +31,12 @@ func raceWorkerInit() {
 	debug.SetGCPercent(-1)
 }
 
-var gcCounter int
-
 func betweenEpisodes() {
 	if os.Getenv("VERIF_GCMODE") == "default" {
 		return
 	}
-	gcCounter++
-	if n, _ := strconv.Atoi(os.Getenv("VERIF_GCEVERY")); n > 0 {
-		if gcCounter%n == 0 {
-			runtime.GC()
-		}
-		return
-	}
-	if gcCounter%8 == 0 {
-		runtime.GC()
-	}
+	// one collection empties nothing for good (victim cache), two do; the race
+	// build additionally drains at every context switch inside an episode
+	runtime.GC()
+	runtime.GC()
 }
